@@ -49,7 +49,7 @@ pub fn stream_lengths(r: &Rect, lw: u32, lh: u32) -> Vec<Option<u64>> {
 }
 
 pub fn small_cfgs(quick: bool) -> Vec<Cfg> {
-    let shapes: Vec<(u16, u16)> = if quick { vec![(1, 1), (2, 2), (3, 2), (4, 3)] } else { vec![(1, 1), (1, 3), (2, 2), (3, 2), (2, 3), (3, 3), (4, 3), (3, 4), (5, 4)] };
+    let shapes: Vec<(u16, u16)> = if quick { vec![(1, 1), (1, 3), (2, 2), (3, 2), (2, 3), (4, 3), (3, 4)] } else { vec![(1, 1), (1, 3), (2, 2), (3, 2), (2, 3), (3, 3), (4, 3), (3, 4), (5, 4), (4, 5), (5, 5), (8, 6)] };
     let mut v = Vec::new();
     for (fw, fh) in shapes {
         for win in window_configs(fw, fh) {
